@@ -25,6 +25,7 @@ import (
 	"errors"
 	"net/http"
 	"net/url"
+	"slices"
 	"strings"
 	"time"
 
@@ -406,7 +407,7 @@ func (a *jwtAuthenticator) getKey(
 	}
 
 	if a.isCacheEnabled() {
-		cacheKey = a.calculateCacheKey(ep, req.URL.String(), keyID)
+		cacheKey = a.calculateCacheKey(ep, req.URL.String(), keyReference(ep, req, keyID))
 		if entry, err := cch.Get(ctx.AppContext(), cacheKey); err == nil {
 			var jwk jose.JSONWebKey
 
@@ -575,6 +576,39 @@ func (a *jwtAuthenticator) verifyTokenWithKey(
 	}
 
 	return rawPayload, nil
+}
+
+// keyReference returns the reference of a key for the cache key: the key id, and, if headers of the endpoint are
+// templates (which are rendered using the data from the token, like the url), the rendered values of these.
+// Otherwise, tokens of different issuers, which are told apart by the endpoint based on a header only, would
+// share the cached keys.
+func keyReference(ep *endpoint.Endpoint, req *http.Request, keyID string) string {
+	names := make([]string, 0, len(ep.Headers))
+
+	for name, value := range ep.Headers {
+		if strings.Contains(value, "{{") {
+			names = append(names, name)
+		}
+	}
+
+	if len(names) == 0 {
+		return keyID
+	}
+
+	slices.Sort(names)
+
+	var sb strings.Builder
+
+	sb.WriteString(keyID)
+
+	for _, name := range names {
+		sb.WriteByte(0)
+		sb.WriteString(name)
+		sb.WriteByte(0)
+		sb.WriteString(req.Header.Get(name))
+	}
+
+	return sb.String()
 }
 
 func (a *jwtAuthenticator) calculateCacheKey(ep *endpoint.Endpoint, renderedURL, reference string) string {
